@@ -1,7 +1,9 @@
 """C14 — safe file replacement: Lean action model `Safe.writeFile` / `Safe.File.*` (Model/SafeFile.lean), theorems
 Props/C14.lean.  Three correspondence streams tie the action model to the code:
   api    in-process histories of safe.File (Create/Write/Commit/Close/embedded Close in any order)
-  wf     in-process safe.WriteFileWithMode with callback faults, a failing rename (destination is a directory),
+  wf     in-process safe.WriteFileWithMode with callback faults, a failing rename (destination is a directory), a failing
+         write(2) at every index (RLIMIT_FSIZE set to the file size at which that call starts, SIGXFSZ ignored) under the
+         three callback behaviours {returns the Write error, swallows it and stops, swallows it and keeps writing},
          observations from inside the callback and a concurrent reader
   trace  a child process under strace: the system-call sequence in the destination directory, every injected
          write/close/rename error, SIGKILL on entry to every system call (skipped, and said so, without strace)
@@ -48,7 +50,9 @@ def run(ctx):
         "not proved); a kill point is a prefix of the action sequence (SIGKILL on system-call entry)",
         "the temporary name is a parameter of the model (strace output is compared with the name abstracted to `tmp`); "
         "unlink of the process's own temporary file is assumed to succeed",
-        "bufio.Writer is modelled by its fill/flush/bypass rule (Safe.bufWrite); the buffer size is read from "
+        "bufio.Writer is transcribed with its sticky error (Safe.BW.write/flush test err first; Lemmas writeFile_closed "
+        "proves it equal to the closed form chunk rule Safe.bufWrite + stop at the failing write, for every callback "
+        "behaviour); the buffer size is read from "
         "writefile.go and passed to model and generators, the theorems hold for every size",
     ]
     ctx.assumptions += [
